@@ -695,6 +695,15 @@ func liveSupplement(run *vkRun, tier string) {
 	for _, r := range normal.Rejected {
 		run.Cov["driver_conformance_note"] = "a recorded stream of the real replication goroutine is not accepted by the driver skeleton: the skeleton (harness), not the library, needs attention: " + r
 	}
+	// pipeline stop race (the one piece of replication control flow the driver
+	// skeleton replaces that has a real two-goroutine race): both outcomes of
+	// the writer goroutine's select are forced by holding its write until the
+	// stream is stopped; repeated until both have been seen (64 trials)
+	written, leftover, detail := c15dsCheck(64)
+	run.Cov["pipeline_stop_desync"] = map[string]interface{}{"trials": 64, "writes_released_after_stop": written, "pooled_connections_with_unread_response": leftover, "detail": detail}
+	if leftover > 0 {
+		run.Violation("alive:pooled-connection-with-unread-response", fmt.Sprintf("after replication was stopped during a pipelined write, %d of %d trials left a connection with an unread append response in the shared connection pool (the next vote/timeout-now RPC on it is misframed)", leftover, written), map[string]interface{}{"cmd": "vraft desync --trials 64", "detail": detail})
+	}
 	racePass := do(filepath.Join(filepath.Dir(exe), "vraft-race"), true)
 	run.Cov["race_pass"] = racePass
 	run.Cov["race_pass_note"] = "supplementary, not exhaustive: the scripts basic/restart/snap2 run free under the race detector; a report is a violation, silence proves nothing"
